@@ -15,7 +15,7 @@ PY = "/venv/bin/python"
 
 SEED_ROOT = os.environ.get("SEED_ROOT", "/tmp/seed2")
 SEEDV = os.environ.get("SEEDV", "/tmp/seedv")
-ROUND = {"/tmp/seed": 1, "/tmp/seed2": 2, "/tmp/seed3": 3, "/tmp/seed4": 4, "/tmp/seed5": 5, "/tmp/seed6": 6}.get(SEED_ROOT, 9)
+ROUND = {"/tmp/seed": 1, "/tmp/seed2": 2, "/tmp/seed3": 3, "/tmp/seed4": 4, "/tmp/seed5": 5, "/tmp/seed6": 6, "/tmp/seed7": 7}.get(SEED_ROOT, 9)
 
 
 def src(ID):
